@@ -73,6 +73,16 @@ Section Spectra.
       unfold cc, fifty, two, lit, nlit, ofZ; simpl; apply arg_error_0; simpl; try lra; exact I.
   Qed.
 
+  (* the bounds of the standard arguments as inequalities: validity is only claimed for var > 0, len_scale > 0,
+     nugget >= 0, anis > 0 (and the optional arguments inside their bounds) *)
+  Theorem base_bounds_meaning v :
+    (in_bounds O (base_bound O BVar) v = true <-> 0 < v) /\ (in_bounds O (base_bound O BLenScale) v = true <-> 0 < v)
+    /\ (in_bounds O (base_bound O BNugget) v = true <-> 0 <= v) /\ (in_bounds O (base_bound O BAnis) v = true <-> 0 < v).
+  Proof.
+    unfold in_bounds, arg_error, base_bound. simpl. unfold Rltb, Rleb.
+    destruct (Rle_dec v 0), (Rlt_dec v 0); simpl; repeat split; intros; try discriminate; try lra; reflexivity.
+  Qed.
+
   (* --- Gaussian *)
   Theorem sd_gaussian_nonneg dim ell k : 0 < ell -> 0 <= sd_gaussian O dim ell k.
   Proof.
